@@ -3,7 +3,8 @@
 -/
 import Nuts.Model.Tx
 import NutsProofs.Lemmas.Isolation
-import NutsProofs.Facts
+import NutsProofs.Pins.SetDS
+import NutsProofs.Pins.TxApi
 namespace NutsProofs.C06
 open Nuts Nuts.Model Nuts.Model.SetDS
 
@@ -234,5 +235,9 @@ theorem setStep_nodup (mem : List Bytes) (r : Rec) (h : mem.Nodup) : (setStep me
 (`NutsProofs.Facts.expectedTxApiStmts`). -/
 theorem C06_tx_api_regenerated : NutsGen.F.txApiStmts = NutsProofs.Facts.expectedTxApiStmts :=
   NutsProofs.Facts.tx_api_ok
+
+/-- **regenerated tie.** every condition, loop and call of ds/set/set.go is, on this run, the source `Nuts.Model.SetDS` was written from (`NutsProofs.Facts.expectedSetStmts`). -/
+theorem C06_set_statements_regenerated : NutsGen.F.setStmts = NutsProofs.Facts.expectedSetStmts :=
+  NutsProofs.Facts.set_stmts_ok
 
 end NutsProofs.C06
